@@ -115,6 +115,17 @@ def execute(tr):
             elif k == "add_group":
                 m.add_group(spell(o["tag"], o["sp"]), {e["tag"]: e["val"] for e in o["item"]}, o["index"])
                 o["res"] = "ok"
+            elif k == "add_group_bad":
+                bad = {"none": None, "int": 5, "str": "x", "badkey": {"x": "1"}, "dupkey": {1: "a", "1": "b"}, "list": [1]}[o["bad"]]
+                try:
+                    m.add_group(spell(o["tag"], o["sp"]), bad, o["index"])
+                    o["res"] = "ok"
+                except Exception as ex:
+                    from asyncfix.errors import FIXMessageError as _FME
+                    o["res"] = "err:refused" if isinstance(ex, _FME) else "err:" + type(ex).__name__
+                o["cont"] = project(m)
+                out.append(o)
+                continue
             elif k == "set_group":
                 m.set_group(spell(o["tag"], o["sp"]), [{e["tag"]: e["val"] for e in it} for it in o["items"]])
                 o["res"] = "ok"
@@ -168,6 +179,10 @@ def muts(rng=None):
             ops.append({"op": "add_group", "tag": t, "sp": "int", "item": item("y"), "index": i})
     ops.append({"op": "set_group", "tag": "78", "sp": "int", "items": [item("x"), item("y")]})
     ops.append({"op": "set_group", "tag": "2", "sp": "enum", "items": [item("x")]})
+    # refused items on an absent tag, on an existing group and on a plain tag: the container must stay as it was
+    for t in ("78", "2", "453"):
+        for bad in ("none", "int", "str", "badkey", "dupkey", "list"):
+            ops.append({"op": "add_group_bad", "tag": t, "sp": "int", "bad": bad, "index": -1})
     # heterogeneous items: the searched member is missing from an earlier item, present in a later one (and vice versa)
     i80 = [{"tag": "80", "k": "f", "val": "q", "items": []}]
     both = [{"tag": "79", "k": "f", "val": "y", "items": []}, {"tag": "80", "k": "f", "val": "q", "items": []}]
@@ -221,7 +236,7 @@ def run(ctx):
         traces.append({"id": "s%d" % si, "ops": list(p) + battery(None)})
         for mi, m in enumerate(mm):
             greads = []
-            if m["op"] in ("add_group", "set_group"):
+            if m["op"] in ("add_group", "set_group", "add_group_bad"):
                 gt = m["tag"]
                 greads = [{"op": "gindex", "tag": gt, "index": i} for i in (0, 1, 2, 3)] + \
                          [{"op": "gtag", "tag": gt, "gtag": a, "gval": b} for a, b in (("79", "y"), ("79", "x"), ("80", "q"), ("80", "nope"), ("81", "q"))]
